@@ -249,6 +249,11 @@ func cuckooCase(c *Ctx, cfg cuckooCfg) {
 				hexStr(e), b2i(destructive), b2i(side), natList(slots), tag, post.length, post.doc.bucketsStr())
 			hist = append(hist, fmt.Sprintf("I%d(d=%v,seed=%d)->%s", j, destructive, seed, tag))
 			changed := diffSlots(pre.doc, post.doc)
+			// the eviction path is taken exactly when both candidate buckets are full beforehand
+			if _, i1, i2, ok := cuckooPos(e, n, fpl); ok && pre.doc.B[i1].L >= b && pre.doc.B[i2].L >= b {
+				kicked = true
+				changed += 2
+			}
 			if tag == "ok" {
 				okIns++
 				live[j]++
